@@ -1036,3 +1036,152 @@ Proof.
   split; [apply rg_inv_strategy; assumption|].
   destruct (rg_inv_reg s Hinv i Hi) as [_ [A B]]. split; assumption.
 Qed.
+
+(* ================================================================= I. average strategy *)
+Lemma rg_not_all_zero_sum row : rg_nonneg row -> forallb (fun x => Qeq_bool x 0) row = false -> ~ qsum row == 0.
+Proof.
+  intros Hnn Hf H0. unfold rg_nonneg in Hnn. rewrite Forall_forall in Hnn.
+  pose proof (qsum_nonneg_zero row Hnn H0) as Hz.
+  assert (forallb (fun x => Qeq_bool x 0) row = true).
+  { apply forallb_forall. intros x Hx. apply Qeq_bool_iff. apply Hz. exact Hx. }
+  congruence.
+Qed.
+
+Lemma rg_uniform_facts s i : rg_static s -> (i < rg_nrm s)%nat ->
+  let u := rg_uniform_unused (rg_nc s) (rg_node s i) in
+  length u = rg_nc s /\ rg_nonneg u /\ ~ qsum u == 0 /\ rg_used0 s i u.
+Proof.
+  intros Hst Hi u. destruct (rg_st_unused s Hst i Hi) as [a0 [Ha0 Hfree]].
+  assert (Hnn : rg_nonneg u).
+  { apply Forall_forall. intros x Hx. unfold u, rg_uniform_unused in Hx. apply in_map_iff in Hx.
+    destruct Hx as [a [<- _]]. destruct (tb _ a); lra. }
+  split; [unfold u, rg_uniform_unused; rewrite map_length, seq_length; reflexivity|]. split; [exact Hnn|]. split.
+  - assert (H1 : 1 <= qsum u).
+    { apply rg_qsum_ge_elem; [apply Forall_forall; exact Hnn|]. unfold u, rg_uniform_unused. apply in_map_iff.
+      exists a0. rewrite Hfree. split; [reflexivity| apply in_seq; lia]. }
+    intro H0. lra.
+  - intros a Ha Ht. unfold u. rewrite rg_nth_uniform by exact Ha. rewrite Ht. reflexivity.
+Qed.
+
+(* the un-normalised average row: non-negative, not summing to zero, zero on revealed coalitions *)
+Lemma rg_average_pid_facts s i : rg_inv s -> (i < rg_nrm s)%nat ->
+  exists cum, rg_average_pid s (rg_node s i) = RgOk cum /\ length cum = rg_nc s /\ rg_nonneg cum /\ ~ qsum cum == 0 /\ rg_used0 s i cum.
+Proof.
+  intros Hinv Hi. pose proof (rg_inv_static s Hinv) as Hst. unfold rg_average_pid.
+  rewrite (rg_st_lookup s Hst i Hi). cbn [rg_of_option rg_bind].
+  rewrite (nth_error_nth' (rg_strat s) [] (n := i)) by (rewrite (rg_inv_strat_len s Hinv); exact Hi). cbn [rg_of_option rg_bind].
+  destruct (rg_inv_strat s Hinv i Hi) as [Hl [Hnn Hu]].
+  destruct (forallb (fun x => Qeq_bool x 0) (nth i (rg_strat s) [])) eqn:E.
+  - destruct (rg_uniform_facts s i Hst Hi) as [A [B [C D]]]. eexists. split; [reflexivity|]. repeat split; assumption.
+  - eexists. split; [reflexivity|]. split; [exact Hl|]. split; [exact Hnn|]. split; [|exact Hu].
+    apply rg_not_all_zero_sum; assumption.
+Qed.
+
+Theorem rg_avg_pid_distribution s i : rg_inv s -> (i < rg_nrm s)%nat ->
+  exists av, rg_bind (rg_average_pid s (rg_node s i)) rg_normalize = RgOk av /\
+             length av = rg_nc s /\ rg_nonneg av /\ qsum av == 1 /\ rg_used0 s i av.
+Proof.
+  intros Hinv Hi. destruct (rg_average_pid_facts s i Hinv Hi) as [cum [E [Hl [Hnn [Hs Hu]]]]].
+  rewrite E. cbn [rg_bind].
+  destruct (rg_normalize_dist cum) as [av [E1 [E2 [E3 [E4 E5]]]]]; [apply Forall_forall; exact Hnn| exact Hs|].
+  exists av. split; [exact E1|]. split; [lia|]. split; [apply Forall_forall; exact E3|]. split; [exact E4|].
+  intros a Ha Ht. apply E5; [lia| apply Hu; assumption].
+Qed.
+
+Lemma rg_pos_elem l : rg_nonneg l -> ~ qsum l == 0 -> exists p, (p < length l)%nat /\ 0 < nth p l 0.
+Proof.
+  induction 1 as [|x l Hx Hl IH]; intros Hs; simpl in Hs; [exfalso; apply Hs; reflexivity|].
+  destruct (Qlt_le_dec 0 x) as [Hp|Hn].
+  - exists O. split; [simpl; lia| exact Hp].
+  - assert (x == 0) by lra. destruct IH as [p [Hp Hv]].
+    + intro H0. apply Hs. rewrite H0. lra.
+    + exists (S p). split; [simpl; lia| exact Hv].
+Qed.
+
+Definition rg_pmap_onto (s : rg_rm) : Prop := forall p, (p < rg_nc s)%nat -> In (Z.of_nat p) (rg_pmap s).
+
+(* get_average_strategy in the coalition space of the original game *)
+Theorem rg_avg_distribution s i past :
+  rg_inv s -> (i < rg_nrm s)%nat -> rg_pmap_onto s ->
+  rg_meta_id (rg_np s) (rg_pmap s) past = RgOk (rg_node s i) ->
+  exists av, rg_average_strategy s past = RgOk av /\ length av = length (rg_pmap s) /\ rg_nonneg av /\ qsum av == 1 /\
+    (forall c, ~ nth c av 0 == 0 ->
+       exists p, nth c (rg_pmap s) (-1)%Z = Z.of_nat p /\ (p < rg_nc s)%nat /\ tb (rg_node s i) p = false).
+Proof.
+  intros Hinv Hi Honto Hm. unfold rg_average_strategy. rewrite Hm. cbn [rg_bind].
+  destruct (rg_average_pid_facts s i Hinv Hi) as [cum [E [Hl [Hnn [Hs Hu]]]]]. rewrite E. cbn [rg_bind].
+  set (g := fun z : Z => if (z <? 0)%Z then 0 else nth (Z.to_nat z) cum 0).
+  set (coals := map g (rg_pmap s)).
+  assert (Hcn : forall x, In x coals -> 0 <= x).
+  { intros x Hx. apply in_map_iff in Hx. destruct Hx as [z [<- _]]. unfold g. destruct (z <? 0)%Z; [lra|].
+    apply rg_nth_nonneg. exact Hnn. }
+  assert (Hcs : ~ qsum coals == 0).
+  { destruct (rg_pos_elem cum Hnn Hs) as [p [Hp Hv]].
+    assert (Hin : In (nth p cum 0) coals).
+    { apply in_map_iff. exists (Z.of_nat p). split; [|apply Honto; lia]. unfold g.
+      destruct (Z.ltb_spec (Z.of_nat p) 0); [lia|]. rewrite Nat2Z.id. reflexivity. }
+    pose proof (rg_qsum_ge_elem coals _ Hcn Hin). intro H0. lra. }
+  destruct (rg_normalize_dist coals Hcn Hcs) as [av [E1 [E2 [E3 [E4 E5]]]]].
+  exists av. split; [exact E1|]. split; [rewrite E2; unfold coals; apply map_length|].
+  split; [apply Forall_forall; exact E3|]. split; [exact E4|].
+  intros c Hc.
+  assert (Hlt : (c < length coals)%nat).
+  { destruct (Nat.lt_ge_cases c (length coals)) as [H|H]; [exact H|]. exfalso. apply Hc.
+    rewrite nth_overflow by lia. reflexivity. }
+  assert (Hcc : ~ nth c coals 0 == 0) by (intro H0; apply Hc; apply E5; assumption).
+  assert (Eg : nth c coals 0 = g (nth c (rg_pmap s) (-1)%Z)).
+  { unfold coals. change 0 with (g (-1)%Z) at 1. apply map_nth. }
+  rewrite Eg in Hcc. unfold g in Hcc. set (z := nth c (rg_pmap s) (-1)%Z) in *.
+  destruct (Z.ltb_spec z 0) as [Hz|Hz]; [exfalso; apply Hcc; reflexivity|].
+  exists (Z.to_nat z). split; [rewrite Z2Nat.id by exact Hz; reflexivity|].
+  assert (Hp : (Z.to_nat z < rg_nc s)%nat).
+  { destruct (Nat.lt_ge_cases (Z.to_nat z) (rg_nc s)) as [H|H]; [exact H|]. exfalso. apply Hcc.
+    rewrite nth_overflow by lia. reflexivity. }
+  split; [exact Hp|]. destruct (tb (rg_node s i) (Z.to_nat z)) eqn:Et; [|reflexivity].
+  exfalso. apply Hcc. apply Hu; assumption.
+Qed.
+
+Lemma rg_pmap_onto_check np :
+  forallb (fun p => existsb (Z.eqb (Z.of_nat p)) (rg_player_id_map np)) (seq 0 (rg_ncoal np)) = true ->
+  forall p, (p < rg_ncoal np)%nat -> In (Z.of_nat p) (rg_player_id_map np).
+Proof.
+  intros H p Hp. rewrite forallb_forall in H. specialize (H p). rewrite in_seq in H.
+  assert (E : existsb (Z.eqb (Z.of_nat p)) (rg_player_id_map np) = true) by (apply H; lia).
+  apply existsb_exists in E. destruct E as [z [Hz Ez]]. apply Z.eqb_eq in Ez. subst z. exact Hz.
+Qed.
+
+Lemma rg_pmap_onto_345 np : In np [3; 4; 5]%nat ->
+  forall p, (p < rg_ncoal np)%nat -> In (Z.of_nat p) (rg_player_id_map np).
+Proof.
+  intros [<-|[<-|[<-|[]]]]; apply rg_pmap_onto_check; vm_compute; reflexivity.
+Qed.
+
+Lemma rg_run_fields hist : forall s0 s, rg_run s0 hist = RgOk s ->
+  rg_np s = rg_np s0 /\ rg_nc s = rg_nc s0 /\ rg_pmap s = rg_pmap s0.
+Proof.
+  induction hist as [|[t u] hist IH]; intros s0 s H; simpl in H.
+  - apply rg_ok_inj in H. subst. auto.
+  - destruct (rg_iteration s0 t u) as [s1| | |] eqn:E; cbn [rg_bind] in H; try discriminate.
+    apply rg_iteration_shape in E. destruct E as [reg [st ->]]. apply IH in H. exact H.
+Qed.
+
+(* avg_strategy_distribution for the players counts of the property (3..5), any limit >= 1, any history *)
+Theorem rg_avg_full clamp np lim plus s0 hist s :
+  In np [3; 4; 5]%nat -> (1 <= lim)%nat -> (clamp = true \/ (lim <= rg_ncoal np)%nat) ->
+  rg_construct (rg_mkvariant ById clamp) np lim plus = RgOk s0 ->
+  Forall (fun tu => rg_nonneg (fst tu)) hist ->
+  rg_run s0 hist = RgOk s ->
+  forall i past, (i < rg_nrm s)%nat -> rg_meta_id (rg_np s) (rg_pmap s) past = RgOk (rg_node s i) ->
+  exists av, rg_average_strategy s past = RgOk av /\ length av = length (rg_pmap s) /\ rg_nonneg av /\ qsum av == 1 /\
+    (forall c, ~ nth c av 0 == 0 ->
+       exists p, nth c (rg_pmap s) (-1)%Z = Z.of_nat p /\ (p < rg_nc s)%nat /\ tb (rg_node s i) p = false).
+Proof.
+  intros Hnp H1 Hc Hmk Hh Hrun i past Hi Hm.
+  assert (Hinv : rg_inv s).
+  { eapply rg_rm_invariant; [|exact Hh| exact Hrun]. unfold rg_construct in Hmk. eapply rg_constructor_inv; eauto. }
+  apply rg_avg_distribution; try assumption.
+  destruct (rg_run_fields hist s0 s Hrun) as [_ [Enc Epm]].
+  unfold rg_pmap_onto. rewrite Enc, Epm.
+  unfold rg_construct, rg_mk in Hmk. cbn [rg_pol rg_clamp] in Hmk. rewrite rg_mk_table_ById in Hmk.
+  apply rg_ok_inj in Hmk. subst s0. cbn [rg_nc rg_pmap]. apply rg_pmap_onto_345. exact Hnp.
+Qed.
